@@ -23,6 +23,9 @@ def run(ctx):
         _commit.model_check(ctx, faults=2)
     _commit.replay_schedules(ctx, "edge", faults=1)
     _commit.size_sweep(ctx, ctx.pick(90, 900))
+    # the commit-log writer under write / fsync failures (spec/storage/LogWriter.tla; bound to the code by the fault sweep)
+    from checks import _logwriter
+    _logwriter.model_check(ctx)
     # injected file-system failures (LD_PRELOAD layer) at sampled positions of recorded workloads, then crash + reopen
     from checks import _storage
     _storage.fault_sweep(ctx, ctx.pick(8, 32), ctx.pick(12, 60))
